@@ -131,7 +131,8 @@ func buildSeeds(dir string) *seedBuilder {
 		{file: "dummy.msi", ext: ".msi", layout: "cfb", quick: true, quickS: true, sign: true},
 		{file: "dummy.pkg", ext: ".pkg", layout: "xar", quick: true, quickS: true, sign: true},
 		{file: "dummy.dmg", ext: ".dmg", layout: "dmg", quick: true, quickS: true, sign: true},
-		{file: "zlib1g_1.2.8.dfsg-5_i386.deb", ext: ".deb", layout: "ar", quick: false, quickS: true, sign: true},
+		{name: "tiny.deb", ext: ".deb", layout: "ar", data: tinyDeb(dir), quick: true, quickS: true, sign: true},
+		{file: "zlib1g_1.2.8.dfsg-5_i386.deb", ext: ".deb", layout: "ar", quick: false, quickS: false, sign: true},
 		{file: "rocky-basesystem-11-13.el9.noarch.rpm", ext: ".rpm", layout: "rpm", quick: true, quickS: false, sign: true},
 		{file: "InRelease", ext: "", layout: "text", quick: true},
 		{file: "Release.gpg", ext: ".gpg", layout: "text", quick: false, content: filepath.Join(P, "Release")},
@@ -174,12 +175,38 @@ func buildSeeds(dir string) *seedBuilder {
 			b.add(&Seed{Name: name + ":signed", Kind: "pkg", Module: mod.Name, Ext: sp.ext, Layout: sp.layout, Quick: sp.quickS, Tiny: sp.tiny && len(signed) <= 2048, Origin: "signed with rsaA by relicx.SignStandalone"}, signed)
 		}
 	}
+	b.edgeSeeds()
 	b.pgpSeeds()
 	b.tarSeeds()
 	b.pkcs7Seeds()
 	b.certSeeds()
 	b.tsSeeds()
 	return b
+}
+
+// edgeSeeds: hand-made shapes that byte-level mutation cannot reach from the
+// functest fixtures (they need bytes removed from the middle or the front);
+// each is run as is.
+func (b *seedBuilder) edgeSeeds() {
+	for _, s := range b.seeds {
+		switch s.Name {
+		case "hello.ps1:signed", "hello.ps1xml:signed", "hello.mof:signed":
+			// a document that starts with its signature block (no script text before it)
+			for _, marker := range []string{"# SIG # Begin", "<!-- SIG # Begin", "/* SIG # Begin"} {
+				if i := bytes.Index(s.data, []byte(marker)); i > 0 {
+					b.add(&Seed{Name: s.Name + ":sigblock-only", Kind: "pkg", Module: s.Module, Ext: s.Ext, Layout: "text", Quick: true, IdentityOnly: true,
+						Origin: "signed document with everything before the signature block removed"}, append([]byte(nil), s.data[i:]...))
+					// ... and the same with the block's end marker missing
+					if j := bytes.LastIndex(s.data, []byte("SIG # End")); j > i {
+						b.add(&Seed{Name: s.Name + ":sigblock-unterminated", Kind: "pkg", Module: s.Module, Ext: s.Ext, Layout: "text", Quick: true, IdentityOnly: true,
+							Origin: "signed document cut before the end marker of the signature block"}, append([]byte(nil), s.data[:j-2]...))
+					}
+					break
+				}
+			}
+		}
+	}
+	// one-byte and whitespace-only inputs for every module are covered by truncation of the smallest seeds
 }
 
 // pgpSeeds: small clearsigned / detached / inline messages made with rsaA's
@@ -437,6 +464,26 @@ func tinyPE() []byte {
 	le32(s+20, 0x200)  // raw ptr
 	le32(s+36, 0x60000020)
 	b[0x200] = 0xc3
+	return b
+}
+
+// tinyDeb: a minimal binary package built by dpkg-deb (gzip members).
+func tinyDeb(dir string) []byte {
+	root := filepath.Join(dir, "tinydeb")
+	must(os.MkdirAll(filepath.Join(root, "DEBIAN"), 0o755))
+	must(os.MkdirAll(filepath.Join(root, "usr/share/doc/verif-tiny"), 0o755))
+	must(os.WriteFile(filepath.Join(root, "DEBIAN/control"), []byte("Package: verif-tiny\nVersion: 1.0\nArchitecture: all\nMaintainer: verif <verif@example.com>\nDescription: tiny package for parser checks\n"), 0o644))
+	must(os.WriteFile(filepath.Join(root, "usr/share/doc/verif-tiny/README"), []byte("hello\n"), 0o644))
+	out := filepath.Join(dir, "tiny.deb")
+	cmd := exec.Command("dpkg-deb", "--root-owner-group", "-Zgzip", "--build", root, out)
+	cmd.Env = append(os.Environ(), "SOURCE_DATE_EPOCH=1790000000")
+	if o, err := cmd.CombinedOutput(); err != nil {
+		panic(fmt.Sprintf("dpkg-deb: %v %s", err, o))
+	}
+	b, err := os.ReadFile(out)
+	must(err)
+	os.RemoveAll(root)
+	os.Remove(out)
 	return b
 }
 
